@@ -19,6 +19,10 @@ Lemma rsum_scal_r k l : rsum (map (fun x => x * k) l) = rsum l * k.
 Proof. induction l; simpl; [ring|rewrite IHl; ring]. Qed.
 Lemma rsum_scal_l k l : rsum (map (fun x => k * x) l) = k * rsum l.
 Proof. induction l; simpl; [ring|rewrite IHl; ring]. Qed.
+Lemma rsum_map_scal_r {A} (f : A -> R) k l : rsum (map (fun a => f a * k) l) = rsum (map f l) * k.
+Proof. induction l; simpl; [ring|rewrite IHl; ring]. Qed.
+Lemma rsum_map_scal_l {A} (f : A -> R) k l : rsum (map (fun a => k * f a) l) = k * rsum (map f l).
+Proof. induction l; simpl; [ring|rewrite IHl; ring]. Qed.
 Lemma rsum_map_add {A} (f g : A -> R) l : rsum (map (fun x => f x + g x) l) = rsum (map f l) + rsum (map g l).
 Proof. induction l; simpl; lra. Qed.
 Lemma rsum_map_ext {A} (f g : A -> R) l : (forall x, In x l -> f x = g x) -> rsum (map f l) = rsum (map g l).
